@@ -55,7 +55,8 @@ func c10Serve(h http.Handler, body []byte) httpResp { return c10ServeMode(h, bod
 func c10ServeMode(h http.Handler, body []byte, mode string) httpResp {
 	req := httptest.NewRequest(http.MethodPost, "/add-checkpoint", bytes.NewReader(body))
 	if mode == "bytewise" {
-		req = httptest.NewRequest(http.MethodPost, "/add-checkpoint", iotest.OneByteReader(bytes.NewReader(body)))
+		// ... and the last byte arrives together with io.EOF.
+		req = httptest.NewRequest(http.MethodPost, "/add-checkpoint", iotest.DataErrReader(iotest.OneByteReader(bytes.NewReader(body))))
 		req.ContentLength = -1
 		req.TransferEncoding = []string{"chunked"}
 	}
@@ -231,6 +232,7 @@ func c10(tier string) int {
 	c10Malformed(run, u, gen, la, lb)
 	c10RateLimit(run, u, gen, la, lb)
 	c10Overlap(run, u, gen, la, lb)
+	c10HugeSizes(run, u, la, lb)
 	c10Faults(run, u, gen, la, lb)
 	c10EndToEnd(run, u, gen, la, lb)
 	for _, c := range []string{"accepted->200", "no-valid-signature->403", "unknown-log->404", "old-size-invalid->400", "stale->409", "root-mismatch->409", "invalid-proof->422", "malformed->400"} {
@@ -243,7 +245,7 @@ func c10(tier string) int {
 	run.Set("traces_validated_against_impl", trans)
 	run.Set("evaluations", trans+run.Get("malformed_bodies")+run.Get("rate_limit_requests"))
 	run.Set("exhaustive", true)
-	run.Set("rule", fmt.Sprintf("explicit-state BFS where every transition is an HTTP request to the real add-checkpoint handler (built as FeedBastion builds it, behind the same 16 KiB MaxBytesHandler; bodies delivered in one piece with Content-Length in the in-memory run and as a chunked upload one byte per Read in the sql run, malformed bodies both ways; plus every ordered pair of 7 requests overlapped deterministically inside one handler: B served completely while A is between body parsing and the witness, answers compared with the sequential order on a twin; plus four requests under every placement of up to two interface-level storage faults: 200 only if the store holds the submitted checkpoint) in front of the real witness behind the real witnessAdapter; states are witness states reached through the endpoint (sizes 0..%d, forks at 0 and 3, both stores); alphabet = the C01 alphabet rendered as request bodies + unknown origin; oracle = wmodel composed with the protocol's status map, 200 bodies verified as cosignature lines over the submitted text, 409 stale bodies compared with the true size; plus malformed bodies and three rate-limit regimes. distinct_nontrivial = distinct (state, expected answer, request)", n))
+	run.Set("rule", fmt.Sprintf("explicit-state BFS where every transition is an HTTP request to the real add-checkpoint handler (built as FeedBastion builds it, behind the same 16 KiB MaxBytesHandler; bodies delivered in one piece with Content-Length in the in-memory run and as a chunked upload one byte per Read in the sql run, malformed bodies both ways; plus every ordered pair of 7 requests overlapped deterministically inside one handler: B served completely while A is between body parsing and the witness, answers compared with the sequential order on a twin; plus the size-dependent answers for stored sizes around 2^31, 2^32, 2^53, 2^63 and 2^64; plus four requests under every placement of up to two interface-level storage faults: 200 only if the store holds the submitted checkpoint) in front of the real witness behind the real witnessAdapter; states are witness states reached through the endpoint (sizes 0..%d, forks at 0 and 3, both stores); alphabet = the C01 alphabet rendered as request bodies + unknown origin; oracle = wmodel composed with the protocol's status map, 200 bodies verified as cosignature lines over the submitted text, 409 stale bodies compared with the true size; plus malformed bodies and three rate-limit regimes. distinct_nontrivial = distinct (state, expected answer, request)", n))
 	run.Assumption("the search is in process (httptest recorder); a 53-request transition tour (every verdict class in every state along none -> 2 -> 4 -> 6 -> 8) is also sent over a real TLS 1.3 + HTTP/2 reverse connection through the exported FeedBastion and compared, answer by answer, with the in-process handler on a twin witness")
 	return run.Finish()
 }
@@ -563,4 +565,54 @@ func c10Faults(run *ev.Run, u *uni.U, gen *wh.CPGen, la, lb wh.LogCfg) {
 	}
 	run.Set("http_fault_executions", n)
 	run.Add("evaluations", n)
+}
+
+// c10HugeSizes: the size-dependent answers for stored sizes around 2^31, 2^32,
+// 2^63 and 2^64 (a log can sign any size; first use accepts it): a stale old
+// size gets 409 with the TRUE stored size as decimal body, an old size above
+// the submitted size 400, the same size with another root 409.
+func c10HugeSizes(run *ev.Run, u *uni.U, la, lb wh.LogCfg) {
+	rootA, rootB := bytes.Repeat([]byte{0xa1}, 32), bytes.Repeat([]byte{0xb2}, 32)
+	for _, size := range []uint64{7, 1<<31 - 1, 1 << 31, 1<<32 - 1, 1 << 32, 1<<53 + 1, 1<<63 - 1, 1 << 63, 1<<63 + 10, ^uint64(0) - 1, ^uint64(0)} {
+		e := wh.NewEnv(u, wh.Config{Store: "mem", Logs: []wh.LogCfg{la, lb}})
+		h := bastion.VerifNewHandler(omniwitness.VerifWitnessAdapter(e.W), c10Logs(la, lb), u.W1.CosigVerif, rate.Inf, 1, true)
+		cp := u.Sign(uni.Body(la.Origin, size, rootA), la.Key.Signer)
+		rep := map[string]any{"kind": "huge-size", "size": fmt.Sprint(size)}
+		sig := func(k string, st int) string {
+			return fmt.Sprintf("%s stored-size-class=%s status=%d", k, c19SizeClass(size), st)
+		}
+		if r := c10Serve(h, c10Body(0, nil, cp)); r.Status != 200 {
+			run.Report(sig("huge-first-use", r.Status), fmt.Sprintf("first use of a log-signed checkpoint of size %d answered %d", size, r.Status), rep)
+			e.Close()
+			continue
+		}
+		run.Add("huge_size_probes", 1)
+		// stale: old 0 (and old = size-1), same checkpoint.
+		for _, old := range []uint64{0, size - 1} {
+			if old == size {
+				continue
+			}
+			r := c10Serve(h, c10Body(old, nil, cp))
+			want := fmt.Sprintf("%d\n", size)
+			if r.Status != 409 || r.CT != "text/x.tlog.size" || r.Body != want {
+				run.Report(sig("huge-stale-answer", r.Status), fmt.Sprintf("stored size %d, stale old size %d: answered %d %q body %q, want 409 text/x.tlog.size %q", size, old, r.Status, r.CT, r.Body, want), rep)
+			}
+		}
+		// same size, other root: 409 (conflict), state unchanged.
+		other := u.Sign(uni.Body(la.Origin, size, rootB), la.Key.Signer)
+		if r := c10Serve(h, c10Body(size, nil, other)); r.Status != 409 {
+			run.Report(sig("huge-root-mismatch", r.Status), fmt.Sprintf("stored size %d, same size with another root: answered %d, want 409", size, r.Status), rep)
+		}
+		// old size above the submitted checkpoint's size: 400 (only expressible below 2^64-1).
+		if size < ^uint64(0) {
+			if r := c10Serve(h, c10Body(size+1, nil, cp)); r.Status != 400 {
+				run.Report(sig("huge-old-above-checkpoint", r.Status), fmt.Sprintf("stored size %d, the same checkpoint submitted with old size %d: answered %d, want 400", size, size+1, r.Status), rep)
+			}
+		}
+		// refresh: 200.
+		if r := c10Serve(h, c10Body(size, nil, cp)); r.Status != 200 {
+			run.Report(sig("huge-refresh", r.Status), fmt.Sprintf("stored size %d, refresh: answered %d, want 200", size, r.Status), rep)
+		}
+		e.Close()
+	}
 }
